@@ -180,11 +180,10 @@ int cif_loop_set_category(cif_loop_tp *loop, const UChar *category) {
         PREPARE_STMT(container->cif, set_loop_category, SET_CATEGORY_SQL);
     }
 
-    if (category == NULL) {
-        category_temp = NULL;
-    } else if (*category == 0) {
+    if ((category != NULL) && (*category == 0)) {
         return CIF_RESERVED_LOOP;
     } else {
+        /* the category of the scalar loop cannot be changed, not even to NULL */
         int temp = cif_loop_get_category(loop, &category_temp);
 
         if (temp != CIF_OK) {
@@ -197,9 +196,13 @@ int cif_loop_set_category(cif_loop_tp *loop, const UChar *category) {
             }
         }
 
-        category_temp = cif_u_strdup(category);
-        if (category_temp == NULL) {
-            return CIF_MEMORY_ERROR;
+        if (category == NULL) {
+            category_temp = NULL;
+        } else {
+            category_temp = cif_u_strdup(category);
+            if (category_temp == NULL) {
+                return CIF_MEMORY_ERROR;
+            }
         }
     }
 
